@@ -10,7 +10,12 @@ for m in sorted(glob.glob(os.path.join(VERIF, "seeded", "*", "meta.json"))):
     name = os.path.basename(os.path.dirname(m))
     if args and not any(a in name for a in args):
         continue
-    pid = json.load(open(m))["breaks_property"]
+    meta = json.load(open(m))
+    pid = meta["breaks_property"]
+    if meta.get("not_detected_by_design"):
+        # archived for the record: the change does not contradict the statement as written (reason in meta.json and DESIGN 10.4)
+        print("%-62s %s not detected, by design: %s" % (name, pid, meta["not_detected_by_design"][:120]), flush=True)
+        continue
     p = subprocess.run([sys.executable, os.path.join(VERIF, "bin", "mutant.py"), "rerun", name, pid] + upd,
                        stdout=subprocess.PIPE, stderr=subprocess.STDOUT, text=True)
     last = p.stdout.strip().splitlines()[-1] if p.stdout.strip() else ""
